@@ -405,6 +405,11 @@ func buildCatalogue(seed int64, rec *hook.Recorder, want int, withSpec bool) map
 		const internalRecoverDoc = `{"swagger":"2.0","info":{"title":"i","version":"1"},"paths":{"/n":{"get":{"operationId":"n","responses":{"200":{"description":"ok"}}}}},"definitions":{"A":{"type":"object","properties":{"p":{"type":"object","properties":{"q":{"$ref":"#/definitions/missing"}}},"k":{"type":"string"}},"default":{"k":"v","p":{"q":1}},"example":{"p":{"q":2}}}}}`
 		add(specCall("spec-internal-recover", internalRecoverDoc, true))
 		add(specCall("spec-internal-recover", internalRecoverDoc, true))
+		// a document whose own members, defaults and examples go through the format checker (panic injection points of C11:
+		// the k-th check may be one the library recovers from itself, or one whose panic reaches the caller)
+		const specFormatDoc = `{"swagger":"2.0","info":{"title":"f","version":"1","contact":{"email":"a@b.co","url":"http://e.example.com"}},"paths":{"/f":{"get":{"operationId":"f","parameters":[{"name":"d","in":"query","type":"string","format":"date","default":"2020-01-01"},{"name":"l","in":"query","type":"array","format":"date","items":{"type":"string","format":"date"},"default":["2020-01-02"]}],"responses":{"200":{"description":"ok","headers":{"X-Id":{"type":"string","format":"uuid","default":"a8098c1a-f86e-11da-bd1a-00112444be1e"}},"schema":{"$ref":"#/definitions/F"},"examples":{"application/json":{"when":"2020-01-03","who":"c@d.eu"}}}}}}},"definitions":{"F":{"type":"object","properties":{"when":{"type":"string","format":"date","default":"2020-01-04","example":"2020-01-05"},"who":{"type":"string","format":"email","example":"e@f.gh"},"any":{"allOf":[{"type":"string","format":"date"}],"default":"2020-01-06"}},"default":{"when":"2020-01-07","who":"g@h.ij"}}}}`
+		add(specCall("spec-format", specFormatDoc, false))
+		add(specCall("spec-format", specFormatDoc, true))
 	}
 	return cat
 }
@@ -456,7 +461,16 @@ func runHistory(args []string) error {
 	full := fs.Bool("full", false, "the build logs borrows too (validatedebug)")
 	poison := fs.Bool("poison", true, "scribble over redeemed objects (off: objects keep their natural stale content)")
 	threads := fs.Int("threads", 1, "GOMAXPROCS")
+	crashed := fs.String("crashed", "", "comma separated <history index>:<how> of histories that killed (or hung) an earlier attempt of this run: reported, not run again")
+	onlyCrashed := fs.Bool("only-crashed", false, "report the histories listed in -crashed and run nothing")
 	fs.Parse(args)
+	crashedHow := map[string]string{}
+	for _, c := range strings.Split(*crashed, ",") {
+		if parts := strings.Split(c, ":"); len(parts) == 2 {
+			crashedHow[parts[0]] = parts[1]
+		}
+	}
+	debug.SetMaxStack(192 << 20)
 	runtime.GOMAXPROCS(*threads)
 	debug.SetGCPercent(-1) // pools are emptied only by explicit "GC" steps: maximal reuse
 	rec := hook.NewRecorder()
@@ -472,8 +486,11 @@ func runHistory(args []string) error {
 		for {
 			time.Sleep(5 * time.Second)
 			if time.Now().Unix()-lastProgress.Load() > 240 {
-				fmt.Fprintln(os.Stderr, "run-history: no call returned for 240s - giving up (inconclusive)")
-				os.Exit(4)
+				fmt.Fprintln(os.Stderr, "run-history: no call returned for 240s")
+				if b, err := os.ReadFile(filepath.Join(*out, "current.txt")); err == nil && !strings.Contains(string(b), ":") {
+					_ = os.WriteFile(filepath.Join(*out, "current.txt"), []byte(string(b)+":hang"), 0o644)
+				}
+				os.Exit(5)
 			}
 		}
 	}()
@@ -486,7 +503,7 @@ func runHistory(args []string) error {
 	}
 	sort.Strings(classes)
 	// dry run: number of format checks of the format-bearing calls
-	for _, cl := range []string{"os-format", "pv-format"} {
+	for _, cl := range []string{"os-format", "pv-format", "spec-format"} {
 		for _, c := range cat[cl] {
 			pr := &panicReg{Registry: strfmt.Default, k: -1}
 			alone(rec, c, pr)
@@ -514,7 +531,7 @@ func runHistory(args []string) error {
 		var panicSteps []string
 		if *panics {
 			// every k from 1 to the number of format-checker invocations of every format-bearing workload
-			for _, cl := range []string{"os-format", "pv-format"} {
+			for _, cl := range []string{"os-format", "pv-format", "spec-format"} {
 				for ci, c := range cat[cl] {
 					for k := 1; k <= c.NFmt; k++ {
 						panicSteps = append(panicSteps, fmt.Sprintf("panic:%s#%d:%d", cl, ci, k))
@@ -526,6 +543,10 @@ func runHistory(args []string) error {
 			}
 			if *n < len(panicSteps) {
 				r.Shuffle(len(panicSteps), func(i, j int) { panicSteps[i], panicSteps[j] = panicSteps[j], panicSteps[i] })
+				// panics inside whole-specification validation come first when specifications are part of the run
+				sort.SliceStable(panicSteps, func(i, j int) bool {
+					return strings.HasPrefix(panicSteps[i], "panic:spec-") && !strings.HasPrefix(panicSteps[j], "panic:spec-")
+				})
 			} else {
 				*n = len(panicSteps)
 			}
@@ -563,6 +584,24 @@ func runHistory(args []string) error {
 			w.open()
 			inChunk = 0
 		}
+		// same protocol as the other drivers: the history is noted before it runs; one that ended the process (fatal error)
+		// or hung in an earlier attempt is reported as a call whose outcome is "the driver died", not run again
+		if how, dead := crashedHow[fmt.Sprint(hi)]; dead {
+			for _, e := range []hook.PoolEvent{{Kind: "reset", G: 1}, {Kind: "call", G: 1, Call: 0, Class: "history"},
+				{Kind: "ret", G: 1, Call: 0, Class: "history", Out: digest("the driver process died: " + how), Ref: digest("every call returns")}} {
+				e.Ticket = uint64(inChunk + 1)
+				if err := w.write(poolEventJSON(e), enc.M{"history": hi, "steps": h, "driver": how}); err != nil {
+					return err
+				}
+				inChunk++
+			}
+			mismatches = append(mismatches, enc.M{"history": hi, "step": 0, "class": "history", "call": "the whole history", "got": "the driver process died (" + how + ")", "alone": "every call returns"})
+			continue
+		}
+		if *onlyCrashed {
+			continue
+		}
+		_ = os.WriteFile(filepath.Join(*out, "current.txt"), []byte(fmt.Sprint(hi)), 0o644)
 		validate.VerifResetPools()
 		hook.Forget()
 		rec.Drain()
